@@ -49,11 +49,11 @@ func (c08BlockFilter) ShouldSkip(index.FilterOp) (bool, error) { return c08SkipB
 // range intersects the window and which the filter does not rule out - each once, in order. In
 // particular a block ruled out by the filter hides only itself, not the later blocks of the
 // same series.
-// bound: 1..3 blocks (thorough 1..5) over series {1,2,3} in writing order (series non-decreasing, per series disjoint increasing time ranges), primary index blocks cut after any block, wanted series = any subset of {1,2,3} (thorough {1,2,3,4}), arbitrary window, per block: skipped by the filter or not, filter present or not
+// bound: 1..3 blocks (thorough 1..4) over series {1,2,3} in writing order (series non-decreasing, per series disjoint increasing time ranges), primary index blocks cut after any block, wanted series = any subset of {1,2,3} (thorough {1,2,3,4}), arbitrary window, per block: skipped by the filter or not, filter present or not
 func VerifH_C08_StreamPartIteratorYieldsExactlyTheMatchingBlocks() {
 	maxN := 3
 	if zzverif.Thorough() {
-		maxN = 5
+		maxN = 4
 	}
 	n := 1 + zzverif.Choice("blocks", maxN)
 	var blocks []blockMetadata
